@@ -122,7 +122,7 @@ Definition forget_done (l : option lastpkg) : option lastpkg :=
 
 Definition rx_step (need nenv : nat) (l : option lastpkg) (tok : Z) (body : bytes) : sres :=
   match last_ctx tok l with
-  | None => SErr [EvErr 60] false                                  (* error in LastPkg *)
+  | None => SErr [EvErr 60] (match body with [] => true | _ :: _ => false end)   (* error in LastPkg: only the token was consumed *)
   | Some (ctx, lparam, lrow) =>
     match chan_dec tok ctx body with
     | PNeb => SNeb
